@@ -46,6 +46,7 @@ Step(e) ==
     \/ e.ev = "it_replace"  /\ AItReplace(e)
     \/ e.ev \in {"it_next", "it_adv"} /\ AItStep(e)
     \/ e.ev = "it_count"    /\ AItCount(e)
+    \/ e.ev = "it_close"    /\ AItClose(e)
     \/ e.ev = "stored"      /\ AStored(e)
     \/ e.ev = "dv_open"     /\ ADvOpen(e)
     \/ e.ev = "dv_visit"    /\ ADvVisit(e)
